@@ -518,7 +518,13 @@ func (rt *runtime) convertCallParameter(v Value, t reflect.Type) (reflect.Value,
 
 				rv, err := v.Call(nullValue, l...)
 				if err != nil {
-					panic(err)
+					// re-throw as something tryCatchEvaluate and catchPanic understand,
+					// so that the script which called the Go function can catch it
+					var oerr *Error
+					if errors.As(err, &oerr) {
+						panic(oerr.ottoError)
+					}
+					panic(toValue(err.Error()))
 				}
 
 				if t.NumOut() == 0 {
